@@ -59,6 +59,7 @@ type Engine struct {
 	funcsVerified []string
 	pathCount     map[string]int
 	coverDone     map[string]bool
+	subCtors      []string
 
 	MaxPaths      int
 	DefaultUnroll int
@@ -90,8 +91,15 @@ func NewEngine(w *World) *Engine {
 		}
 		if kf.Ctor != "clientPrefix" {
 			e.C.AddKeyCtor(kf.Ctor, sorts)
+			if kf.Sub {
+				e.subCtors = append(e.subCtors, kf.Ctor)
+			}
 		}
 	}
+	// keys written through a client store without a declared builder, and the relayer registry's entries
+	e.C.AddKeyCtor("clientRaw", []Sort{SStr, SStr})
+	e.subCtors = append(e.subCtors, "clientRaw")
+	e.C.AddKeyCtor("relayers", []Sort{SStr})
 	return e
 }
 
